@@ -158,17 +158,17 @@ RESNAMES = ["ALA", "GLY", "SER", "ASN", "PRO", "VAL", "LEU"]
 
 
 def make_system(seed, n_chains=None, min_len=3, max_len=9, waters=None, ligand=None, ss=None):
-    """-> dict(topology=md.Topology, xyz=(n_atoms,3) float64, desc=...) ; deterministic in seed"""
+    """-> dict(topology=md.Topology, xyz=(n_atoms,3) float64, desc=...) ; deterministic in seed.
+    Chains: the peptides, plus one hetero chain (ligand, waters) that is placed last or -- in a third of the
+    systems with >= 2 peptides -- between two peptide chains (so that a peptide chain follows non-protein residues)."""
     import mdtraj as md
     from mdtraj.core import element
 
     rng = np.random.RandomState(seed)
     n_chains = n_chains if n_chains is not None else int(rng.choice([1, 1, 2, 2, 3]))
-    top = md.Topology()
-    coords = []
     polar = []
     desc = {"seed": int(seed), "chains": []}
-    first_centre = None
+    chains = []          # each: list of residues (resname, resSeq, [(name, elem, xyz)], [(i, j)] local bonds)
     for ci in range(n_chains):
         n = int(rng.randint(min_len, max_len + 1))
         seq = [RESNAMES[k] for k in rng.choice(len(RESNAMES), size=n, p=[0.25, 0.15, 0.15, 0.1, 0.15, 0.1, 0.1])]
@@ -182,47 +182,49 @@ def make_system(seed, n_chains=None, min_len=3, max_len=9, waters=None, ligand=N
         cterm = rng.choice(["plain", "charged"])
         atoms, bonds = build_chain(seq, phipsi, rng, nterm, cterm)
         X = np.array([a[3] for a in atoms])
-        Rm = random_rotation(rng)
-        X = (X - X.mean(0)) @ Rm.T
-        if first_centre is None:
-            first_centre = np.zeros(3)
-        else:
+        X = (X - X.mean(0)) @ random_rotation(rng).T
+        if ci > 0:
             u = rng.normal(size=3)
-            X = X + first_centre + rng.uniform(0.45, 0.85) * u / np.linalg.norm(u)
-        ch = top.add_chain()
-        res_objs = {}
-        objs = []
-        for (nm, el, ri, _), x in zip(atoms, X):
-            if ri not in res_objs:
-                res_objs[ri] = top.add_residue(seq[ri], ch, resSeq=ri + 1)
-            objs.append(top.add_atom(nm, element.get_by_symbol(el), res_objs[ri]))
-            coords.append(x)
-            if el in ("N", "O", "H") and nm not in ("HA",):
-                polar.append(x)
-        for i, j in bonds:
-            top.add_bond(objs[i], objs[j])
+            X = X + rng.uniform(0.45, 0.85) * u / np.linalg.norm(u)
+        chains.append({"kind": "peptide", "seq": seq, "atoms": [(nm, el, ri, x) for (nm, el, ri, _), x in zip(atoms, X)], "bonds": bonds})
+        polar.extend(x for (nm, el, ri, _), x in zip(atoms, X) if el in ("N", "O", "H"))
         desc["chains"].append({"seq": seq, "ss": str(kind), "nterm": str(nterm), "cterm": str(cterm)})
     n_w = waters if waters is not None else int(rng.choice([0, 1, 2, 3, 4]))
     with_lig = ligand if ligand is not None else bool(rng.rand() < 0.4)
-    if n_w or with_lig:
+    het_atoms, het_bonds, het_names = [], [], []
+    if with_lig:
+        at, bd = ligand_at(rng, polar[rng.randint(len(polar))] + rng.normal(0, 0.2, size=3))
+        het_names.append("LIG")
+        het_atoms.extend((nm, el, 0, x) for nm, el, x in at)
+        het_bonds.extend(bd)
+        polar.extend(x for nm, el, x in at if el != "C")
+    for w in range(n_w):
+        at, bd = water_at(rng, polar[rng.randint(len(polar))], toward=rng.rand() < 0.6)
+        off = len(het_atoms)
+        het_names.append("HOH")
+        het_atoms.extend((nm, el, len(het_names) - 1, x) for nm, el, x in at)
+        het_bonds.extend((off + i, off + j) for i, j in bd)
+        polar.extend(x for _, _, x in at)
+    het_middle = bool(rng.rand() < 0.34) and n_chains >= 2
+    if het_names:
+        het = {"kind": "hetero", "seq": het_names, "atoms": het_atoms, "bonds": het_bonds}
+        if het_middle:
+            chains.insert(1, het)
+        else:
+            chains.append(het)
+    top = md.Topology()
+    coords = []
+    for c in chains:
         ch = top.add_chain()
-        if with_lig:
-            at, bd = ligand_at(rng, polar[rng.randint(len(polar))] + rng.normal(0, 0.2, size=3))
-            res = top.add_residue("LIG", ch, resSeq=900)
-            objs = [top.add_atom(nm, element.get_by_symbol(el), res) for nm, el, _ in at]
-            coords.extend(x for _, _, x in at)
-            polar.extend(x for nm, el, x in at if el != "C")
-            for i, j in bd:
-                top.add_bond(objs[i], objs[j])
-        for w in range(n_w):
-            at, bd = water_at(rng, polar[rng.randint(len(polar))], toward=rng.rand() < 0.6)
-            res = top.add_residue("HOH", ch, resSeq=901 + w)
-            objs = [top.add_atom(nm, element.get_by_symbol(el), res) for nm, el, _ in at]
-            coords.extend(x for _, _, x in at)
-            polar.extend(x for _, _, x in at)
-            for i, j in bd:
-                top.add_bond(objs[i], objs[j])
-    desc.update(waters=n_w, ligand=with_lig)
+        res_objs, objs = {}, []
+        for nm, el, ri, x in c["atoms"]:
+            if ri not in res_objs:
+                res_objs[ri] = top.add_residue(c["seq"][ri], ch, resSeq=(ri + 1 if c["kind"] == "peptide" else 900 + ri))
+            objs.append(top.add_atom(nm, element.get_by_symbol(el), res_objs[ri]))
+            coords.append(x)
+        for i, j in c["bonds"]:
+            top.add_bond(objs[i], objs[j])
+    desc.update(waters=n_w, ligand=with_lig, hetero_between_peptides=het_middle and bool(het_names))
     return {"topology": top, "xyz": np.array(coords), "desc": desc}
 
 
@@ -404,6 +406,7 @@ def ks_traj(case):
 
 
 def ks_eval(case):
+    """-> (list of violations (one per witness class), stats)"""
     import mdtraj as md
 
     t = ks_traj(case)
@@ -413,22 +416,29 @@ def ks_eval(case):
     try:
         got = md.kabsch_sander(t)
     except Exception as e:
-        return ("kabsch_sander-raises", f"kabsch_sander:{type(e).__name__}", f"kabsch_sander raised {type(e).__name__}: {e}", repr(e), None), {}
+        return [("kabsch_sander-raises", f"kabsch_sander:{type(e).__name__}", f"kabsch_sander raised {type(e).__name__}: {e}", repr(e), None)], {}
     stats = {"n_bonds": 0, "n_amb_donors": 0}
     if len(got) != x.shape[0]:
-        return ("kabsch_sander-shape", "kabsch_sander:one-matrix-per-frame", f"{len(got)} matrices for {x.shape[0]} frames", len(got), x.shape[0]), stats
+        return [("kabsch_sander-shape", "kabsch_sander:one-matrix-per-frame", f"{len(got)} matrices for {x.shape[0]} frames", len(got), x.shape[0])], stats
     starts = H.chain_start_residues(res)
     src = case.get("pdb") or f"system {case.get('sys_seed')}"
+    out = {}
+
+    def report(clause, wc, what, obs, exp):
+        out.setdefault((clause, wc), (clause, wc, what, obs, exp))
+
     for f in range(x.shape[0]):
         m = got[f]
         if m.shape != (n, n):
-            return ("kabsch_sander-shape", "kabsch_sander:matrix-shape", f"matrix {m.shape} for {n} residues", list(m.shape), [n, n]), stats
+            report("kabsch_sander-shape", "kabsch_sander:matrix-shape", f"matrix {m.shape} for {n} residues", list(m.shape), [n, n])
+            continue
         coo = m.tocoo()
         obs = {(int(i), int(j)): float(v) for i, j, v in zip(coo.row, coo.col, coo.data)}
         ref, amb = H.kabsch_sander_ref(x[f], res)
         stats["n_bonds"] += len(ref)
         stats["n_amb_donors"] += len(amb)
         where = f"{src}, frame {f} of {x.shape[0]}"
+        mf = ":multi-frame" if f > 0 else ""
         for (a, d), e in sorted(obs.items()):
             if d in amb:
                 continue
@@ -441,19 +451,21 @@ def ks_eval(case):
                     wc = "kabsch_sander:extra:acceptor-is-donor-or-preceding-residue"
                 elif any(res[k][nm] is None for k in (a, d) for nm in ("N", "CA", "C", "O")):
                     wc = "kabsch_sander:extra:incomplete-residue"
+                elif d > 0 and (res[d - 1]["C"] is None or res[d - 1]["O"] is None):
+                    wc = "kabsch_sander:extra:donor-follows-residue-without-carbonyl"
                 else:
-                    wc = "kabsch_sander:extra:energy-or-best-two" + (":multi-frame" if f > 0 else "")
-                return ("kabsch_sander-set", wc, f"{where}: reports C=O({a}) .. H-N({d}) with E = {e:.4f}; the definition gives no such bond",
-                        {f"{a}->{d}": e}, {f"{k[0]}->{k[1]}": round(v, 4) for k, v in ref.items() if k[1] == d}), stats
-            if abs(ref[(a, d)] - e) > H.E_TOL:
-                return ("kabsch_sander-energy", "kabsch_sander:energy-value" + (":multi-frame" if f > 0 else ""),
-                        f"{where}: E(C=O({a}) .. H-N({d})) = {e:.4f}, formula gives {ref[(a, d)]:.4f}", e, ref[(a, d)]), stats
+                    wc = "kabsch_sander:extra:energy-or-best-two" + mf
+                report("kabsch_sander-set", wc, f"{where}: reports C=O({a}) .. H-N({d}) with E = {e:.4f}; the definition gives no such bond",
+                       {f"{a}->{d}": e}, {f"{k[0]}->{k[1]}": round(v, 4) for k, v in ref.items() if k[1] == d})
+            elif abs(ref[(a, d)] - e) > H.E_TOL:
+                report("kabsch_sander-energy", "kabsch_sander:energy-value" + mf,
+                       f"{where}: E(C=O({a}) .. H-N({d})) = {e:.4f}, formula gives {ref[(a, d)]:.4f}", e, ref[(a, d)])
         for (a, d), e in sorted(ref.items()):
             if (a, d) not in obs:
-                return ("kabsch_sander-set", "kabsch_sander:missing" + (":multi-frame" if f > 0 else ""),
-                        f"{where}: bond C=O({a}) .. H-N({d}) with E = {e:.4f} < -0.5 (among the best two of donor {d}) is not reported",
-                        {f"{k[0]}->{k[1]}": round(v, 4) for k, v in obs.items() if k[1] == d}, {f"{a}->{d}": round(e, 4)}), stats
-    return None, stats
+                report("kabsch_sander-set", "kabsch_sander:missing" + mf,
+                       f"{where}: bond C=O({a}) .. H-N({d}) with E = {e:.4f} < -0.5 (among the best two of donor {d}) is not reported",
+                       {f"{k[0]}->{k[1]}": round(v, 4) for k, v in obs.items() if k[1] == d}, {f"{a}->{d}": round(e, 4)})
+    return list(out.values()), stats
 
 
 # --------------------------------------------------------------------------------------------------
@@ -474,6 +486,7 @@ def _cases(tier, seed):
                    "sigma": float(rng.choice([0.0, 0.005, 0.02, 0.05])), "frame_seed": int(rng.randint(1 << 30)),
                    "n_chains": int(rng.choice([1, 2, 2, 3])), "min_len": 4, "max_len": 12,
                    "ss": str(rng.choice(["alpha", "alpha", "310", "pi", "beta", "random"]))})
+    ks.sort(key=lambda c: (c["n_frames"], c["n_chains"]))          # small witnesses first
     for pdb in ("2EQQ.pdb", "1bpi.pdb"):
         for sigma in ([0.0, 0.02] if tier == "quick" else [0.0, 0.005, 0.01, 0.02, 0.05, 0.1]):
             ks.append({"pdb": pdb, "n_frames": 1 if sigma == 0 else (2 if tier == "quick" else 4), "sigma": sigma, "frame_seed": int(rng.randint(1 << 30))})
@@ -483,6 +496,12 @@ def _cases(tier, seed):
 def _run(fn, cases, chk, pool, nontrivial_key):
     results = list(pool.map(fn, cases, chunksize=4)) if pool is not None else [fn(c) for c in cases]
     for case, (v, stats) in zip(cases, results):
+        if isinstance(v, list):
+            for clause, wc, what, obs, exp in v:
+                chk.fail(clause, wc, what, case, observed=obs, expected=exp)
+            if v:
+                continue
+            v = None
         if v is None:
             nt = None
             if stats.get(nontrivial_key, 0) > 0:
@@ -535,6 +554,9 @@ def replay(payload):
     todo = [f for k, f in fns.items() if k in key] or ([ks_eval] if "params" not in inp else [bh_eval, wn_eval])
     for fn in todo:
         v, stats = fn(inp)
+        if isinstance(v, list):
+            want = [x for x in v if not key or x[1] in key] or v
+            v = want[0] if want else None
         if v is not None:
             return {"reproduced": True, "clause": v[0], "witness_class": v[1], "what": v[2], "observed": v[3], "expected": v[4]}
         out[fn.__name__] = stats
